@@ -44,6 +44,8 @@ extern "C" int h_algebra_sym(unsigned d, const double* in, double* out, double t
 }
 // vectors handed from one thread to another: created here ...
 extern "C" int h_make(void* slot, unsigned d, double v){ try{ new(slot) SU_vector(d); static_cast<SU_vector*>(slot)->SetAllComponents(v); return 0; }catch(...){ return 1; } }
+// a vector emptied by assignment (its block changes hands inside the library), later released on some thread
+extern "C" int h_make_emptied(void* slot, unsigned d){ try{ SU_vector* v=new(slot) SU_vector(d); v->SetAllComponents(0.25); SU_vector e; *v = e; return (int)v->Dim(); }catch(...){ return -1; } }
 // ... and released there
 extern "C" int h_drop(void* slot){ static_cast<SU_vector*>(slot)->~SU_vector(); return 0; }
 extern "C" int h_solver_make(void* slot, unsigned nx, unsigned d){ try{ Sys18* s=new(slot) Sys18(nx,d); s->Set_xrange(0.0,1.0,"linear"); s->fill(); return 0; }catch(...){ return 1; } }
